@@ -1,17 +1,20 @@
 import QipVerif.Lemmas.GridMerge
+import QipVerif.Lemmas.GridOde
 import QipVerif.Gen.FillCubic
 /-!
 # C14 — pulse evolution is the time-ordered propagator of the stated Hamiltonian
 
-Property theorems only (resampling logic; the solver part is numerical and checked by the
-correspondence, see notes/C14.md).  `Grid.fullTlist` models `Processor.get_full_tlist`,
+Property theorems only (resampling logic, and — `run_analytically_is_time_ordered` — the analytic fact that the
+slice product of `run_analytically` is the solution operator of `dU/dt = −i H(t) U` for the stated Hamiltonian,
+with Mathlib's matrix exponential; the numerical solvers / `Qobj.expm` are checked by the correspondence, see
+notes/C14.md).  `Grid.fullTlist` models `Processor.get_full_tlist`,
 `Grid.fill` the step branch of `pulse._fill_coeff`, `Grid.fullCoeffs` `get_full_coeffs`;
 `Grid.stepAt tl cs t` is the specification object: the step function of a channel (value of
 the slot of `tl` containing `t`, `0` before the first and from the last grid point on).
 All statements are exact (`Rat`) and hold for every tolerance `tol ≥ 0`.
 -/
 namespace QipVerif.C14
-open QipVerif.Grid
+open QipVerif.Grid Matrix
 
 /-- channel grids as the property quantifies them: strictly increasing, starting at 0, at least one slot -/
 def GoodGrid (g : List Rat) : Prop := g.Pairwise (· < ·) ∧ g.head? = some 0 ∧ 2 ≤ g.length
@@ -133,8 +136,8 @@ example : (fullCoeffsV true (1/10000000000) [.arr [0, 1] [2, 3/4], .arr [0, 3/2,
 
 /-- **piecewise_constant.** Between two consecutive merged points no channel changes its value: for every
 `t` in `[T_k, T_{k+1})` the step function of a channel whose grid points all belong to `T` equals its value
-at `T_k`.  Hence `H(t) = drift + Σ_m c_m(T_k) H_m` on the whole slot, and the ordered product of the slice
-exponentials is the time-ordered exponential (trusted analytic fact). -/
+at `T_k`.  Hence `H(t) = drift + Σ_m c_m(T_k) H_m` on the whole slot; that the ordered product of the slice
+exponentials is the time-ordered exponential is PROVED below (`run_analytically_is_time_ordered`). -/
 theorem piecewise_constant (T tl cs : List Rat) (hT : T.Pairwise (· < ·)) (hsub : ∀ p ∈ tl, p ∈ T)
     (k : Nat) (hk : k + 1 < T.length) (t : Rat) (h1 : T[k] ≤ t) (h2 : t < T[k + 1]) :
     stepAt tl cs t = stepAt tl cs T[k] :=
@@ -205,6 +208,103 @@ theorem fullCoeffs_eq_repaired (tol : Rat) (chans : List (List Rat × List Rat))
   apply List.map_congr_left
   intro t _
   exact stepAt_normCoeff c.1 c.2 t (hlen c hc)
+
+/-! ## the slice product is the time-ordered exponential -/
+
+/-- **run_analytically_is_time_ordered.**  For every number of channels, all channel grids strictly increasing from 0
+whose distinct points are more than `tol` apart, coefficient arrays of length `n-1` or `n`, every matrix size, every
+drift and control matrices (Hermitian or not):
+
+let `(T, rows)` be what `get_full_coeffs` returns (repaired padding, as in /repo), `Tend` the last merged point,
+`H(t) = drift + Σ_m c_m(t)·H_m` on `[0, Tend)` the STATED Hamiltonian (`Grid.statedHam`: `c_m` is channel `m`'s step function
+at the real time `t` — its value holds from one grid point to the next and is 0 once its grid has ended), and
+`U_list = [exp(−i·dt_k·(drift + Σ_m rows[m][k]·H_m))]_k` what `run_analytically` computes from `slices T rows`
+(`Grid.runAnalytically`, Mathlib's matrix exponential).  Then there is `U : ℝ → Matrix` (the ordered product of the slice
+exponentials up to time `t`, `Grid.solOp`) with
+
+1. `U(Tend) = U_list[n-1] ⋯ U_list[1]·U_list[0]`  — the product `run_analytically` returns;
+2. `U(0) = 1`, `U` continuous;
+3. `dU/dt = −i·H(t)·U(t)`: right derivative at EVERY real `t`, two-sided derivative at every `t` that is not a merged
+   grid point (stated entry by entry, so that no matrix norm has to be named);
+4. `U` is the ONLY such function: every `V` continuous on `[0, Tend]` with `V(0) = 1` and right derivative
+   `−i·H(t)·V(t)` on `[0, Tend)` equals `U` on `[0, Tend]` (Grönwall).
+
+So the product of the slice exponentials is the time-ordered exponential of the stated Hamiltonian: an analytic
+fact, formerly trusted. -/
+theorem run_analytically_is_time_ordered {ι : Type*} [Fintype ι] [DecidableEq ι]
+    (tol : Rat) (chans : List (List Rat × List Rat)) (htol : 0 ≤ tol) (hne : chans ≠ [])
+    (hgr : ∀ c ∈ chans, GoodGrid c.1)
+    (hlen : ∀ c ∈ chans, c.2.length + 1 = c.1.length ∨ c.2.length = c.1.length)
+    (hsep : SepAll tol (chans.map (·.1)))
+    (drift : Matrix ι ι ℂ) (ctrls : List (Matrix ι ι ℂ)) :
+    ∃ (T : List Rat) (rows : List (List Rat)) (Tend : Rat) (U : ℝ → Matrix ι ι ℂ),
+      fullCoeffsV true tol (chans.map fun c => Chan.arr c.1 c.2) = .ok (T, rows) ∧ T.getLast? = some Tend ∧
+      U ((Tend : ℚ) : ℝ) = ordProdL (runAnalytically drift ctrls (slices T rows)) ∧
+      U 0 = 1 ∧ Continuous U ∧
+      (∀ (t : ℝ) (i j : ι), HasDerivWithinAt (fun s => U s i j)
+        (((-Complex.I) • (statedHam drift ctrls chans Tend t * U t)) i j) (Set.Ici t) t) ∧
+      (∀ t : ℝ, (∀ q ∈ T, ((q : ℚ) : ℝ) ≠ t) → ∀ i j : ι, HasDerivAt (fun s => U s i j)
+        (((-Complex.I) • (statedHam drift ctrls chans Tend t * U t)) i j) t) ∧
+      (∀ V : ℝ → Matrix ι ι ℂ, ContinuousOn V (Set.Icc 0 ((Tend : ℚ) : ℝ)) → V 0 = 1 →
+        (∀ t ∈ Set.Ico (0 : ℝ) ((Tend : ℚ) : ℝ), ∀ i j : ι, HasDerivWithinAt (fun s => V s i j)
+          (((-Complex.I) • (statedHam drift ctrls chans Tend t * V t)) i j) (Set.Ici t) t) →
+        ∀ t ∈ Set.Icc (0 : ℝ) ((Tend : ℚ) : ℝ), V t = U t) := by
+  let T := sortU (chans.map (·.1)).flatten
+  have hT : T.Pairwise (· < ·) := sortU_pairwise _
+  have hsub : ∀ c ∈ chans, ∀ p ∈ c.1, p ∈ T := by
+    intro c hc p hp
+    exact mem_sortU.mpr (List.mem_flatten.mpr ⟨c.1, List.mem_map.mpr ⟨c, hc, rfl⟩, hp⟩)
+  obtain ⟨c0, hc0⟩ := List.exists_mem_of_ne_nil chans hne
+  have hzero : ∀ c ∈ chans, (0 : Rat) ∈ c.1 := by
+    intro c hc
+    obtain ⟨_, hh, _⟩ := hgr c hc
+    match hcl : c.1, hh with
+    | a :: rest, hh => simp at hh; simp [hh]
+  have hnn : ∀ x ∈ (chans.map (·.1)).flatten, (0 : Rat) ≤ x := by
+    intro x hx
+    obtain ⟨g, hg, hxg⟩ := List.mem_flatten.mp hx
+    obtain ⟨c, hc, rfl⟩ := List.mem_map.mp hg
+    obtain ⟨hp, hh, _⟩ := hgr c hc
+    match hcl : c.1, hh, hp, hxg with
+    | a :: rest, hh, hp, hxg =>
+      simp at hh; subst hh
+      rcases List.mem_cons.mp hxg with rfl | h
+      · exact Rat.le_refl
+      · exact Rat.le_of_lt ((List.pairwise_cons.mp hp).1 x h)
+  have h0 : T.head? = some 0 :=
+    head_sortU_zero _ (List.mem_flatten.mpr ⟨c0.1, List.mem_map.mpr ⟨c0, hc0, rfl⟩, hzero c0 hc0⟩) hnn
+  have hTne : T ≠ [] := by intro h; rw [h] at h0; simp at h0
+  obtain ⟨Tend, hlast⟩ : ∃ e, T.getLast? = some e := ⟨T.getLast hTne, List.getLast?_eq_getLast_of_ne_nil hTne⟩
+  refine ⟨T, chans.map fun c => T.map (stepAt c.1 c.2), Tend, solOp drift ctrls chans T,
+    fullCoeffs_eq_repaired tol chans htol hne hgr hlen hsep, hlast,
+    solOp_end drift ctrls chans T hT Tend hlast, solOp_zero drift ctrls chans T hT h0,
+    solOp_continuous drift ctrls chans T,
+    fun t => (solOp_solves drift ctrls chans T hT h0 Tend hlast hsub t).1,
+    fun t => (solOp_solves drift ctrls chans T hT h0 Tend hlast hsub t).2,
+    fun V hc hV0 hV => solOp_unique drift ctrls chans T hT h0 Tend hlast hsub V hc hV0 hV⟩
+
+-- non-vacuity: two channels ending at different times (hypotheses: `GoodGrid` by computation, `SepAll` as in the example
+-- after `merged_contains`), drift σz, controls σx and a non-Hermitian matrix; the stated Hamiltonian in the slot [1, 3/2)
+example : (∀ c ∈ [([0, 1], [2]), (([0, 3/2, 2] : List Rat), ([1/2, 1/4] : List Rat))], GoodGrid c.1 ∧
+      (c.2.length + 1 = c.1.length ∨ c.2.length = c.1.length)) ∧
+    statedHam (!![1, 0; 0, -1] : Matrix (Fin 2) (Fin 2) ℂ) [!![0, 1; 1, 0], !![0, 1; 0, 0]]
+      [([0, 1], [2]), ([0, 3/2, 2], [1/2, 1/4])] 2 (5 / 4) = !![1, 1/2; 0, -1] := by
+  constructor
+  · intro c hc
+    simp only [List.mem_cons, List.not_mem_nil, or_false] at hc
+    rcases hc with rfl | rfl
+    · exact ⟨⟨by decide +kernel, rfl, by decide⟩, Or.inl rfl⟩
+    · exact ⟨⟨by decide +kernel, rfl, by decide⟩, Or.inl rfl⟩
+  · have e : ((5 / 4 : ℝ)) = (((5 / 4 : Rat) : ℚ) : ℝ) := by norm_num
+    unfold statedHam
+    rw [if_pos ⟨by norm_num, by norm_num⟩, e]
+    simp only [List.map_cons, List.map_nil, stepAtR_cast]
+    have h1 : stepAt [0, 1] [2] (5 / 4) = 0 := by decide +kernel
+    have h2 : stepAt [0, 3 / 2, 2] [1 / 2, 1 / 4] (5 / 4) = 1 / 2 := by decide +kernel
+    rw [h1, h2]
+    unfold linComb
+    ext i j
+    fin_cases i <;> fin_cases j <;> simp [List.zipWith]
 
 /-- **Reload is a fixed point**: a channel given on the merged grid with a full-length coefficient array
 (what `read_coeff` installs) resamples to itself. -/
@@ -345,7 +445,7 @@ theorem cubic_interpolant (n : Nat) : (Gen.cubicInterp n).degree n = splineDegre
 theorem splineDegree_spec (n d : Nat) : splineDegree n = some d ↔ 2 ≤ n ∧ d = min 3 (n - 1) := by
   unfold splineDegree
   by_cases h : n < 2
-  · simp [h]; omega
+  · simp [h]
   · simp [h]; omega
 
 example : splineDegree 2 = some 1 ∧ splineDegree 3 = some 2 ∧ splineDegree 4 = some 3 ∧ splineDegree 9 = some 3 ∧
